@@ -12,7 +12,8 @@ VF_GHOSTS
   __CPROVER_ensures(vf_exc == 0)                                                                                       \
   __CPROVER_ensures(__CPROVER_old(f->fail) ==> f->fail)                                                                \
   __CPROVER_ensures((f->fail && !__CPROVER_old(f->fail)) ==> vf_io_error_seen)                                         \
-  __CPROVER_ensures(__CPROVER_old(vf_io_error_seen) ==> vf_io_error_seen);
+  __CPROVER_ensures(__CPROVER_old(vf_io_error_seen) ==> vf_io_error_seen)                                              \
+  __CPROVER_ensures(vf_io_error_seen ==> (__CPROVER_old(vf_io_error_seen) || f->fail));
 
 IO_CONTRACT(Header__write, struct Header)
 IO_CONTRACT(Parameters__write, struct Parameters)
